@@ -172,9 +172,10 @@ type listener struct {
 	bs       *bootstrap
 	url      string
 	option   []transport.Option
-	mutex    sync.Mutex // guards options and acceptor
+	mutex    sync.Mutex // guards options, acceptor and closed
 	options  *transport.Options
 	acceptor transport.Acceptor
+	closed   bool
 }
 
 // Acceptor returned the acceptor
@@ -187,7 +188,13 @@ func (l *listener) Acceptor() transport.Acceptor {
 // Close listener
 func (l *listener) Close() error {
 	l.bs.removeListener(l.url)
-	if acceptor := l.Acceptor(); acceptor != nil {
+
+	l.mutex.Lock()
+	l.closed = true
+	acceptor := l.acceptor
+	l.mutex.Unlock()
+
+	if acceptor != nil {
 		return acceptor.Close()
 	}
 	return nil
@@ -197,6 +204,11 @@ func (l *listener) Close() error {
 func (l *listener) listen() (transport.Acceptor, *transport.Options, error) {
 	l.mutex.Lock()
 	defer l.mutex.Unlock()
+
+	// closed before the accept loop started, or the bootstrap is shutting down
+	if l.closed || nil != l.bs.Context().Err() {
+		return nil, nil, ErrServerClosed
+	}
 
 	if nil != l.acceptor {
 		return nil, nil, fmt.Errorf("duplicate call Listener:Sync")
